@@ -295,12 +295,60 @@ def run_phasor(case):
     tt = p.time().sympy
     res['time'] = time_parts(tt, [res['omega']]) if res['omega'] else None
     res['time_str'] = str(tt)
+    # search-oracle part: sinusoid -> phasor -> time gives back the same sinusoid
+    try:
+        from lcapy import expr as lexpr
+        orig = lexpr(ex).sympy
+        d = sp.simplify(sp.expand_trig(sp.expand(tt - orig)))
+        if d == 0:
+            res['diff_zero'] = True
+        else:
+            # not simplified to 0: decide at rational sample points of t with high-precision evaluation
+            free = [x for x in d.free_symbols if x != tsym]
+            vals = []
+            for tv in (sp.Rational(1, 3), sp.Rational(7, 5), sp.Rational(-2, 7)):
+                dv = d.subs(tsym, tv).subs({x: sp.Rational(3, 7) for x in free})
+                vals.append(abs(complex(sp.N(dv, 40))))
+            res['diff_zero'] = max(vals) < 1e-25
+            res['diff'] = str(d)
+    except Exception as e:
+        res['diff_error'] = type(e).__name__ + ': ' + str(e)[:100]
     return res
+
+
+def run_ode(case):
+    """series RC / RL / RLC driven by V1 (nodes 1-0): substitute the reconstructed time-domain
+    response into the circuit's differential equation"""
+    c = mk(case['netlist'])
+    vs = c.V1.v.sympy
+    t = tsym
+    if case['ode'] == 'RC':
+        R, C = sp.sympify(str(c.R1.cpt.args[0])), sp.sympify(str(c.C1.cpt.args[0]))
+        vc = c.C1.v.sympy
+        r = R * C * sp.diff(vc, t) + vc - vs
+    elif case['ode'] == 'RL':
+        R, L = sp.sympify(str(c.R1.cpt.args[0])), sp.sympify(str(c.L1.cpt.args[0]))
+        i = c.L1.i.sympy
+        r = L * sp.diff(i, t) + R * i - vs
+    else:
+        R, L, C = [sp.sympify(str(c[n].cpt.args[0])) for n in ('R1', 'L1', 'C1')]
+        vc = c.C1.v.sympy
+        r = L * C * sp.diff(vc, t, 2) + R * C * sp.diff(vc, t) + vc - vs
+    r = sp.simplify(sp.expand(r))
+    out = {'residual': str(r)}
+    if r == 0:
+        out['residual_zero'] = True
+    else:
+        vals = [abs(complex(sp.N(r.subs(t, tv), 40))) for tv in (sp.Rational(1, 3), sp.Rational(7, 5), sp.Rational(-2, 7))]
+        out['residual_zero'] = max(vals) < 1e-25
+    return out
 
 
 def run(case):
     if case.get('mode') == 'phasor':
         return run_phasor(case)
+    if case.get('mode') == 'ode':
+        return run_ode(case)
     return run_circuit(case)
 
 
